@@ -1083,7 +1083,7 @@ func TestVerif_C15(t *testing.T) {
 		"WriteToFile+LoadFromFile / WriteAt+LoadFromFile, <=4 live objects, depth 6 quick (thorough deeper); successor = replay on a fresh heap; dedup on (complete private state, model with ids and contents); " +
 		"where several child blocks have room every map-iteration choice is a separate successor; each new state is executed twice (identical observations required) and written to an in-memory image: " +
 		"object bytes in the image, LoadFromFile, read-only reader, re-write and WriteAt byte identity; every transition is a non-trivial case (distinct (state,op) by construction); " +
-		"plus single executions at 64 KiB and 512 KiB blocks around usable capacity / block size / growth past the first block, and dense-attribute images through core.ParseAttributesFromMessages")
+		"plus single executions at 64 KiB, 128 KiB and 512 KiB blocks around usable capacity / block size / growth past the first block / the largest managed object size, and dense-attribute images through core.ParseAttributesFromMessages")
 	r.Assume("free space is compared with the library's own notion of capacity (sum of block sizes minus live bytes); the prefix/checksum overhead is judged only by observable byte loss")
 	r.Assume("what GetObject returns for a stale (deleted) id is not specified by the statement; only 'no panic, no state change' is required")
 	r.Assume("forcing a map iteration order = temporarily hiding the other child blocks from fh.DirectBlocks during InsertObject; a forced choice counts only if the library itself put the object into that block")
@@ -1116,7 +1116,17 @@ func TestVerif_C15(t *testing.T) {
 		"offsets-up-to-64KiB":   vfC15Fill(15, 4096, 4095, 1),
 		"offsets-past-64KiB":    vfC15Fill(16, 4096, 4096, 1),
 		"many-small-past-64KiB": vfC15Fill(255, 300),
+		// objects at the largest managed size (the inclusive bound of the id's length field)
+		"first-object-max-managed-1": {65535, 1},
+		"first-object-max-managed":   {65536, 1},
+		"first-object-max-managed+1": {65537, 1},
 	}
 	vfC15Production(r, 512*1024, k512)
+	vfC15Production(r, 128*1024, map[string][]int{
+		"first-object-max-managed-1": {65535, 1},
+		"first-object-max-managed":   {65536, 1},
+		"first-object-max-managed+1": {65537, 1},
+		"first-object-65280":         {65280, 255, 1},
+	})
 	vfC15SecondReader(r)
 }
